@@ -62,10 +62,12 @@ package redis
 //@ func handleScan
 //@   prop C18 C11 C02
 //@   consumes req
+//@   transfers MakeRequestToHost req
 //@   requires req != nil && req.body != nil && u != nil
 
 //@ func (*scanRequest).Convert
-//@   prop C18 C11
+//@   prop C18 C11 C02
+//@   produces sreq
 //@   requires r != nil && r.raw != nil && r.raw.body != nil && len(r.raw.body.Array) >= 2
 //@   ensures @idx nodeIdx == old(r.nodeIdx) && sreq != nil
 
@@ -98,7 +100,6 @@ package redis
 
 //@ func (*simpleRequest).RegisterHook
 //@   prop C18 C02
-//@   consumes captured(hook)
 //@   requires r != nil
 //@   modifies r.hooks, r.hooks[len(r.hooks):cap(r.hooks)]
 //@   ensures @appended len(r.hooks) == old(len(r.hooks)) + 1
@@ -365,11 +366,13 @@ package redis
 //@ func handleSimpleCommand
 //@   prop C11 C03 C02
 //@   consumes req
+//@   transfers MakeRequest req
 //@   requires u != nil && req != nil && validbody(req.body)
 
 //@ func handleEval
 //@   prop C11 C03 C02
 //@   consumes req
+//@   transfers MakeRequest req
 //@   requires u != nil && req != nil && validbody(req.body)
 
 //@ func handleSumResultCommand
@@ -666,7 +669,8 @@ package redis
 //@ func (*upstream).MakeRequest
 //@   prop C02 C03
 //@   consumes req
-//@   requires u != nil && req != nil
+//@   requires u != nil && req != nil && req.body != nil && len(req.body.Array) > 0
+//@   assume u.cfg != nil && forall s int, k int :: 0 <= s && s < 16384 && u.slots[s] != nil && 0 <= k && k < len(u.slots[s].Replicas) ==> u.slots[s].Replicas[k] != nil
 
 //@ func (*upstream).MakeRequestToHost
 //@   prop C02 C04 C20
@@ -682,11 +686,13 @@ package redis
 //@   prop C02 C01
 //@   flag tokens
 //@   requires c != nil
+//@   loop 0 assume c.filter != nil && (forall k int :: 0 <= k && k < len(c.filter.filters) ==> c.filter.filters[k] != nil)
 
 //@ func (*client).loopRead
 //@   prop C02 C01
 //@   flag tokens
 //@   requires c != nil
+//@   loop 0 assume decoderOK(c.dec)
 
 //@ func (*client).drainRequests
 //@   prop C02
@@ -695,8 +701,8 @@ package redis
 
 //@ func handleSimpleCommand$1
 //@   prop C02
-//@   consumes req
+//@   consumes deref(req)
 
 //@ func handleEval$1
 //@   prop C02
-//@   consumes req
+//@   consumes deref(req)
